@@ -58,20 +58,35 @@ def judge(ctx):
     wf = [f["name"] for f in spec["factors"] if any(l[1] > 1 for l in f["levels"]) and f["name"] in spec["block"]["design"]]
     if not wf:
         raise D.Skip("no-weighted-basic-factor")
-    if any(l[1] > 1 for d in spec["derived"] for l in d["levels"]):
-        raise D.Skip("weighted-derived-level")       # the property speaks about non-derived factors and crossed levels
+    derived_weights = any(l[1] > 1 for d in spec["derived"] for l in d["levels"])
     for c in spec["block"]["constraints"]:
         if (c["kind"] == "sequential" and c["factor"] in wf) or (c["kind"] == "latin" and set(c["factors"]) & set(wf)):
             # refused by the library for crossed factors; for uncrossed ones it orders the hidden copies (see DESIGN.md 4.4)
             raise D.Skip("ambiguous:weights-in-order-constraint")
     blk = ctx.block
     ctx.require_small()
+    cap = ctx.lim("max_models")
+    if derived_weights:
+        # a weighted derived level cannot be written as named copies (two derived levels may not match the same input):
+        # only the reference oracle speaks (crossing combinations with the level occur w times as often)
+        ctx.label("weighted-derived-level:reference-only")
+        ctx.require_unambiguous(allow=("rcc-with-removal", "empty-crossing", "all-levels-excluded"))
+        orig, c1 = ctx.sat_all(cap=cap)
+        if not c1:
+            raise D.Skip("too-large:models")
+        oc = D.exps_counter(orig)
+        want = D.ref_counter(ctx.ref_enum())
+        ctx.nontrivial = bool(oc)
+        ctx.sample = {"spec": spec, "sequences": sum(oc.values())}
+        if want != oc:
+            ctx.fail("reference-multiset", "reference has %d solutions (%d distinct), library %d (%d distinct)"
+                     % (sum(want.values()), len(want), sum(oc.values()), len(oc)))
+        return
     tspec, wc, wu = twin_of(spec)
     try:
         tb = B.build(tspec)
     except B.BuildRejected as e:
         raise D.Skip("twin-rejected:%s" % type(e.exc).__name__)
-    cap = ctx.lim("max_models")
     orig, c1 = ctx.sat_all(cap=cap)
     twin, c2 = ctx.lib_call("sat-twin", lambda: L.exhaust_sat_inprocess(tb.block, cap))
     if not (c1 and c2):
@@ -117,7 +132,7 @@ def judge(ctx):
         pass
 
 
-CFG = G.cfg(p_weight=0.6, max_weight=3, derived_weights=False, max_constraints=2)
+CFG = G.cfg(p_weight=0.6, max_weight=3, derived_weights=True, max_constraints=2)
 P = D.DesignProperty(
     "C23", judge,
     rule=("case = generated design spec with at least one weighted basic factor and its copy-expanded twin; both are exhausted through the "
